@@ -94,8 +94,45 @@ func c08plan(c *core.Ctx) {
 	// resume site
 	resume := an.Resume{}
 	var resumeExec ssa.Instruction
+	isResumeExec := func(call ssa.CallInstruction) bool {
+		return callResult(call.Common().Args[0], 0, "snapshot/plan.ReadFromFile")
+	}
+	// the resume branch may have been moved into a private helper that is handed the paths
+	planFn := fn
+	termOf := an.TermOf
+	if h := hostOf(fn, func(f *ssa.Function) bool {
+		for _, call := range an.CallsTo(f, false, "snapshot/plan.Plan.Execute") {
+			if isResumeExec(call) {
+				return true
+			}
+		}
+		return false
+	}); h != nil && h != fn {
+		c.Touch(h)
+		// helper parameters stand for the caller's path arguments
+		subst := map[string]an.PathTerm{}
+		for _, call := range an.AllCalls(fn, true) {
+			if call.Common().StaticCallee() != h {
+				continue
+			}
+			for i, a := range call.Common().Args {
+				if i < len(h.Params) {
+					subst[an.TermOf(h.Params[i]).Base] = an.TermOf(a)
+				}
+			}
+		}
+		termOf = func(v ssa.Value) an.PathTerm {
+			t := an.TermOf(v)
+			if s, ok := subst[t.Base]; ok {
+				return an.PathTerm{Base: s.Base, Comps: append(append([]string(nil), s.Comps...), t.Comps...)}
+			}
+			return t
+		}
+		fn = h
+	}
+	defer func() { fn = planFn }()
 	for _, call := range an.CallsTo(fn, false, "snapshot/plan.Plan.Execute") {
-		if callResult(call.Common().Args[0], 0, "snapshot/plan.ReadFromFile") {
+		if isResumeExec(call) {
 			resumeExec = call.(ssa.Instruction)
 		}
 	}
@@ -123,7 +160,7 @@ func c08plan(c *core.Ctx) {
 			continue
 		}
 		// the true side: direct removals, in order
-		g := an.TermOf(call.Common().Args[0])
+		g := termOf(call.Common().Args[0])
 		resume.GuardExists = &g
 		var short []an.PlanOp
 		for _, rb := range fn.Blocks {
@@ -137,11 +174,11 @@ func c08plan(c *core.Ctx) {
 				if x, ok := in.(*ssa.Call); ok {
 					switch an.CalleeID(x) {
 					case "os.RemoveAll":
-						short = append(short, an.PlanOp{Kind: "RemoveAll", Src: an.TermOf(x.Common().Args[0])})
+						short = append(short, an.PlanOp{Kind: "RemoveAll", Src: termOf(x.Common().Args[0])})
 					case "os.Remove":
 						// the plan file itself is outside the model
 						if !strings.Contains(an.Canon(x.Common().Args[0]), "Plan") && !an.MentionsCall(x.Common().Args[0], "path/filepath.Dir") {
-							short = append(short, an.PlanOp{Kind: "Remove", Src: an.TermOf(x.Common().Args[0])})
+							short = append(short, an.PlanOp{Kind: "Remove", Src: termOf(x.Common().Args[0])})
 						}
 					}
 				}
@@ -151,6 +188,7 @@ func c08plan(c *core.Ctx) {
 		resume.Short = short
 		desc = "if " + g.Key() + " exists: " + fmt.Sprint(short) + ", else replay from the first operation"
 	}
+	fn = planFn
 	results := an.CheckReplay(init, ops, resume)
 	c.Count("crash points explored for the 8→10 plan", len(results))
 	c.Min("crash points explored for the 8→10 plan", 6)
